@@ -34,10 +34,17 @@ def say(text):
     print(text)
 def say_quiet():
     return 5
+def say_raw(text):
+    print(text, end="")
+def say_boom(text):
+    print(text)
+    return 1/0
 def table(key):
     return TABLE[key]
 TABLE = {}
+print("main ran")
 '''
+MAIN_PRINTS = "main ran\n"        # what one run() of the student program writes
 
 _ready = False
 
@@ -402,13 +409,15 @@ def widen(cls):
     return cls
 
 
-def oracle(name, a, b=None, exact=False, delta=None, printed=None, spelling=None):
+def oracle(name, a, b=None, exact=False, delta=None, printed=None, spelling=None, failed=None):
     """Does the asserted relation hold for the RAW operands?  (=> the assertion must be silent)
-    True / False, or None where the property leaves the answer open (o_equal's Ambiguous)."""
+    True / False, or None where the property leaves the answer open (o_equal's Ambiguous).
+    `failed` (history cases): the generator's knowledge of whether the execution the left operand stands for
+    ended in an error; without it a Sandbox operand is asked."""
     a, b = raw(a), raw(b)
     if isinstance(a, BaseException) or isinstance(b, BaseException):
         return False
-    if isinstance(a, rt.Sandbox) and a.exception is not None:
+    if failed or (failed is None and isinstance(a, rt.Sandbox) and a.exception is not None):
         return False            # an execution that ended in an error satisfies nothing
     d = DEFAULT_DELTA if delta is None else delta
     table = {
